@@ -340,13 +340,30 @@ package codegen
 //@   ensures result ==> laOK(p._qla, p._qlasym) && p._qla != -1
 //@   ensures p._lex == old(p._lex)
 //@   modifies p._la, elems(int)
-//@   let okStack = lrStack(p._stack) && p._stack[0].State == 0 && (p._qla == -1 || laOK(p._qla, p._qlasym))
+//@   let okStack = lrStack(p._stack) && !fresh(p._stack) && p._stack[0].State == 0 && (p._qla == -1 || laOK(p._qla, p._qlasym))
 //@   loop 0 invariant p == old(p) && !isnil(p._lex) && p._lex == old(p._lex) && okStack && laOK(p._la, p._lasym) && unchangedOld(elems(_item)) && unchangedOld(elems(int32)) && unchangedOld(fields(Self), *p)
 //@   loop 1 invariant p == old(p) && !isnil(p._lex) && p._lex == old(p._lex) && okStack && laOK(p._la, p._lasym) && unchangedOld(elems(_item)) && unchangedOld(elems(int32)) && unchangedOld(fields(Self), *p)
 //@   loop 2 invariant p == old(p) && !isnil(p._lex) && p._lex == old(p._lex) && lrStack(save) && save[0].State == 0 && (p._qla == -1 || laOK(p._qla, p._qlasym)) && laOK(p._la, p._lasym) && unchangedOld(elems(_item)) && unchangedOld(elems(int32)) && unchangedOld(fields(Self), *p)
-//@   loop 2 invariant base(p._stack) == base(save) && off(p._stack) == off(save) && len(p._stack) <= len(save) && cap(p._stack) == cap(save) && (forall k int :: {p._stack[k]} 0 <= k && k < len(p._stack) ==> p._stack[k] == save[k])
-//@   loop 3 invariant p == old(p) && !isnil(p._lex) && p._lex == old(p._lex) && lrStack(save) && save[0].State == 0 && (p._qla == -1 || laOK(p._qla, p._qlasym)) && laOK(p._la, p._lasym) && unchangedOld(elems(_item)) && unchangedOld(elems(int32)) && unchangedOld(fields(Self), *p)
-//@   loop 3 invariant base(p._stack) == base(save) && off(p._stack) == off(save) && 1 <= len(p._stack) && len(p._stack) <= len(save) && cap(p._stack) == cap(save) && validState(state) && (forall k int :: {p._stack[k]} 0 <= k && k < len(p._stack) ==> p._stack[k] == save[k])
+//@   loop 2 invariant !fresh(save) && base(p._stack) == base(save) && off(p._stack) == off(save) && len(p._stack) <= len(save) && cap(p._stack) == cap(save) && (forall k int :: {p._stack[k]} 0 <= k && k < len(p._stack) ==> p._stack[k] == save[k])
+//@   let common = p == old(p) && !isnil(p._lex) && p._lex == old(p._lex) && lrStack(save) && save[0].State == 0 && (p._qla == -1 || laOK(p._qla, p._qlasym)) && laOK(p._la, p._lasym) && unchangedOld(elems(_item)) && unchangedOld(elems(int32)) && unchangedOld(fields(Self), *p)
+//@   let prefix = base(p._stack) == base(save) && off(p._stack) == off(save) && 1 <= len(p._stack) && len(p._stack) <= len(save) && cap(p._stack) == cap(save) && (forall k int :: {p._stack[k]} 0 <= k && k < len(p._stack) ==> p._stack[k] == save[k])
+//   the scratch stack of the simulation: states only, in an array of its own
+//@   let simOK = 0 <= base && base < len(p._stack) && len(sim) >= 1 && fresh(sim) && !fresh(save) && base(sim) != base(save) && (forall k int :: {sim[k]} 0 <= k && k < len(sim) ==> validState(sim[k].State))
+//@   let commonA = p == old(p) && !isnil(p._lex) && p._lex == old(p._lex) && save[0].State == 0 && (p._qla == -1 || laOK(p._qla, p._qlasym)) && laOK(p._la, p._lasym)
+//@   let commonB = unchangedOld(elems(_item)) && unchangedOld(elems(int32)) && unchangedOld(fields(Self), *p)
+//@   loop 3 invariant commonA
+//@   loop 3 invariant commonB
+//@   loop 3 invariant lrStack(save)
+//@   loop 3 invariant prefix
+//@   loop 3 invariant simOK
+//@   loop 4 invariant commonA
+//@   loop 4 invariant commonB
+//@   loop 4 invariant lrStack(save)
+//@   loop 4 invariant prefix
+//@   loop 4 invariant 0 <= base && base < len(p._stack) && len(sim) >= 1 && fresh(sim) && !fresh(save) && base(sim) != base(save)
+//@   loop 4 invariant forall k int :: {sim[k]} 0 <= k && k < len(sim) ==> validState(sim[k].State)
+//@   loop 4 invariant validProd(prod)
+//@   loop 4 hint p._stack[base] == save[base] && validState(save[base].State) && sim[0] == sim[0]
 //
 // _act dispatches to the user's action methods (per-instance obligations: the table of
 // term counts is assumed to hold its literal contents; the frames of the runtime show
